@@ -37,7 +37,28 @@ def run(ctx):
         ctx.extra['pre_repair_steal_detected'] = r['inv_violated'] == ['OneRunner']
         if r['inv_violated'] != ['OneRunner']:
             raise vtlib.InfraError('Lifecycle.tla: the unguarded run-queue scan is not detected (vacuous model)')
+    # F10: the asymmetric run-queue lock under x86-TSO (model) and on this machine (litmus on the real class)
+    open_f10 = any(f.get('id') == 'F10' for f in ctx.kf.get('open', []))
+    tso_violated = None
+    if not os.environ.get('VERIF_SKIP_MC'):
+        if not synccheck.mc_all(ctx, [('AsymLockTSO', 'MC_AsymLockTSO_sc.cfg', 300)]):
+            return ctx.finish()
+        r = ctx.mc('AsymLockTSO', 'MC_AsymLockTSO_tso.cfg', timeout=300, count=False)
+        tso_violated = r['inv_violated'] == ['MutualExclusion']
+        ctx.extra['asym_lock_exclusive_under_TSO_model'] = not tso_violated
     ctx.build_lib()
+    ha = ctx.build_harness('h_asym')
+    lit = f'{ctx.out}/asym.ndjson'
+    ctx.run_harness(ha, ['--ms', 1200 if t == 'quick' else 6000, '--out', lit], timeout=300)
+    lrow = vtlib.read_ndjson(lit)[0]
+    ctx.extra['asym_lock_litmus'] = lrow
+    if lrow['lost'] > 0 or tso_violated:
+        what = (f'asymmetric run-queue lock loses mutual exclusion: litmus on the real class lost {lrow["lost"]} of '
+                f'{lrow["fg_k"] + lrow["bg_k"]}k increments; TSO model violated: {tso_violated}')
+        if open_f10:
+            ctx.known('F10', what)
+        else:
+            ctx.violation(what, ctx.save_replay('asym_litmus.ndjson', json.dumps(lrow) + '\n'))
     h = ctx.build_harness('h_life')
     execs = 60 if t == 'quick' else 600
     seeds = [ctx.seed * 10 + k for k in range(4 if t == 'quick' else 10)]
